@@ -787,7 +787,25 @@ pub fn cmd_check(prop: &str, tier: &str, xen_bin: Option<&str>) -> i32 {
                     viol_json.push(J::obj().set("run", J::i(*run)).set("class", J::s(format!("{}/crash", prop))).set("message", J::s(format!("process killed by signal {}", sig))).set("replay", J::s(path.to_string_lossy())));
                 }
             } else {
-                harness_errors.push(format!("worker crash (signal {}) in run {} of {} did not reproduce", sig, run, pr.scenario));
+                // Alone, the run did not kill the process. If it ends with a violation of the property
+                // instead (a fault raised by the simulator can turn into an abort only in a worker that has
+                // other runs behind it, e.g. a second panic while unwinding), that violation is reported with
+                // a replay file that accepts any violation class of the property; only if the run is clean
+                // on its own is this a harness error.
+                let path2 = root().join("replays").join(format!("{}-{}-{}-{}.json", prop, seed, run, if pr.xen { "xen" } else { "unix" }));
+                let v = Violation { property: "", class: String::new(), fingerprint: format!("signal {} in the batch", sig), message: format!("worker killed by signal {} during this run of the batch; replayed alone the run ends with the violation printed by the replay", sig) };
+                write_replay(&path2, if pr.xen { "xen" } else { "unix" }, prop, &pr.scenario, seed, *run, None, None, Some(&v), None, false, 0);
+                let st2 = Command::new(exe).arg("replay").arg(&path2).stdin(Stdio::null()).stdout(Stdio::null()).status();
+                if st2.as_ref().ok().and_then(|s| s.code()) == Some(1) {
+                    let _ = std::fs::remove_file(&path);
+                    if violation_lines.len() < 6 {
+                        violation_lines.push(format!("VIOLATION property={} replay={}", prop, path2.to_string_lossy()));
+                        viol_json.push(J::obj().set("run", J::i(*run)).set("class", J::s(format!("{}/crash", prop))).set("message", J::s(format!("worker killed by signal {} in the batch; alone the run ends with a violation of the property", sig))).set("replay", J::s(path2.to_string_lossy())));
+                    }
+                } else {
+                    let _ = std::fs::remove_file(&path2);
+                    harness_errors.push(format!("worker crash (signal {}) in run {} of {} did not reproduce", sig, run, pr.scenario));
+                }
             }
         }
         for e in &pr.harness_errors {
